@@ -295,9 +295,11 @@ func vfKeystoreReset(factory bool) {
 	vfWaitIdle()
 	disk.hook = nil
 	if ev != 0 && !fired {
-		return // the chosen operation index lies beyond this run: same as "no event"
+		_ = ks.Close() // (a native replay must not leave the worker behind)
+		return         // the chosen operation index lies beyond this run: same as "no event"
 	}
 	if secondAt >= 0 && !secondFired {
+		_ = ks.Close()
 		return
 	}
 	vfAssert(secondErr == nil, "reset/concurrent-put-succeeds")
